@@ -269,6 +269,9 @@ var setPool = []setVal{
 	{`"a\nb"`, "a\nb"},
 	{`"\n"`, "\n"},
 	{`"\r\n<&>"`, "\r\n<&>'\""},
+	{`"a\nb\r"`, "a\nb\r"},
+	{`"\r"`, "\r"},
+	{`"a\r\nb\r\n"`, "a\r\nb\r\n"},
 	{"jid{}", jid.JID{}},
 	{"jid-full", jidFull},
 	{"[]jid{}", []jid.JID{}},
